@@ -32,7 +32,7 @@ MANIFEST = {
             "processors sorted before it (active_order; c18_holder_sees_earlier_processors: the whole built-in pipeline for an "
             "unordered one). `staged` is re-proved on the facts read from the real processors each run; the model is "
             "compared with real App.Run starts (expr-lang and validator called directly as oracles) of components with one or "
-            "several tagged fields, plain or post processors of every ordering class; order-sensitive constraint lists through placeholders and expressions, a share of the cases under a logger that formats every message",
+            "several tagged fields, plain or post processors of every ordering class; order-sensitive constraint lists through placeholders and expressions, a share of the cases under a logger that formats every message; values that consist of blanks",
     "design_ref": "DESIGN.md 5 C18",
     "note": "trusted: Coq kernel + vm_compute; hand-written pipeline model; expr-lang and validator as oracles (Section variables; the "
             "driver's reference validator is its own instance, built with WithRequiredStructEnabled: `required` on a struct value means "
